@@ -130,10 +130,20 @@ func (c *c07Ctx) decode(in []byte, op string) (reflect.Value, error, bool) {
 		// length zero first: no panic, and the input stays as it is (checked below)
 		if !c.prevX.IsValid() || c.calls%250 == 0 {
 			c.prevX = reflect.New(c.ty.rt)
+			if c.calls%500 == 0 {
+				// ... which the caller itself filled with full one-element slices
+				oneElementSlices(c.prevX.Elem(), 0)
+			}
 		}
 		emptyBytes(c.prevX.Elem(), 0)
 		_, pan = unmarshalNoPanic(buf, c.prevX.Interface())
 		r.Fault("destination-decoded-into-again")
+		if pan == "" {
+			if where := lenBeyondCap(c.prevX.Elem(), "", 0); where != "" {
+				r.Fail("memory", "slice-length-beyond-capacity", "after decoding into a destination the caller keeps, the slice at %s has a length greater than its capacity: the decoder wrote behind an allocation (type %s)\ninput=%x", where, c.ty.name, clip(in, 200))
+				return x, err, false
+			}
+		}
 	}
 	fail := func(class, key, format string, a ...any) {
 		r.Fail(class, key, format, a...)
@@ -236,6 +246,54 @@ func sameScan(a, b []byte) bool {
 		}
 	}
 	return true
+}
+
+// oneElementSlices gives every repeated field reachable from v a full slice of one
+// zero element (len == cap == 1), as a caller's literal []T{x} has.
+func oneElementSlices(v reflect.Value, depth int) {
+	if depth > 4 || !v.IsValid() {
+		return
+	}
+	switch v.Kind() {
+	case reflect.Struct:
+		for i := 0; i < v.NumField(); i++ {
+			if v.Type().Field(i).PkgPath == "" {
+				oneElementSlices(v.Field(i), depth+1)
+			}
+		}
+	case reflect.Slice:
+		if v.Type().Elem().Kind() != reflect.Uint8 && v.CanSet() {
+			// (carved out of a larger array of the harness's, so that a write behind
+			// the one element lands in memory that nobody else uses)
+			v.Set(reflect.MakeSlice(v.Type(), 8, 8).Slice3(0, 1, 1))
+		}
+	}
+}
+
+// lenBeyondCap finds a slice reachable from v whose header says len > cap.
+func lenBeyondCap(v reflect.Value, path string, depth int) string {
+	if depth > 5 || !v.IsValid() {
+		return ""
+	}
+	switch v.Kind() {
+	case reflect.Ptr:
+		if !v.IsNil() {
+			return lenBeyondCap(v.Elem(), path, depth+1)
+		}
+	case reflect.Struct:
+		for i := 0; i < v.NumField(); i++ {
+			if v.Type().Field(i).PkgPath == "" {
+				if w := lenBeyondCap(v.Field(i), path+"."+v.Type().Field(i).Name, depth+1); w != "" {
+					return w
+				}
+			}
+		}
+	case reflect.Slice:
+		if v.Len() > v.Cap() {
+			return path
+		}
+	}
+	return ""
 }
 
 // emptyBytes cuts the []byte fields reachable from v to length zero, as a caller that
